@@ -11,6 +11,7 @@
 #include <string>
 #include <vector>
 #include <sstream>
+#include <locale>
 #define private public
 #define protected public
 #include "libconfig.h++"
@@ -302,6 +303,13 @@ int xx_op(int n, char **tok)
       fputs("R unit\n", out); return 1;
     }
     if(n == 1 && IS("xinit")) { fputs("R unit\n", out); return 1; }
+    if(n == 1 && IS("xgrouploc"))
+    {
+      /* a global C++ locale that groups digits (1,000): nothing the library reports may depend on it */
+      struct grp : std::numpunct<char> { char do_thousands_sep() const { return ','; } std::string do_grouping() const { return "\3"; } };
+      std::locale::global(std::locale(std::locale::classic(), new grp));
+      fputs("R unit\n", out); return 1;
+    }
     if(n == 1 && IS("xclear")) { cx->clear(); check_kept(); fputs("R unit\n", out); return 1; }
     if(n == 1 && IS("xtemp")) { { Config tmp; tmp.getRoot().add("t", Setting::TypeInt) = 1; } fputs("R unit\n", out); return 1; }   /* a second Config with a nested lifetime */
     if(n == 3 && IS("xsetfmt"))
